@@ -304,7 +304,10 @@ fn server_case(out: &mut Out, src: &str, plugin: bool, stream: &str) -> bool {
     // "valid schema model": the schema check and the plugin's own check accept it
     let invalid = !nitrogql_checker::check_type_system_document(&doc).is_empty()
         || (plugin && !(ModelPlugin {}).check_schema(&doc).errors.is_empty());
-    if invalid { out.bump(&format!("{stream}:schema-rejected-by-check")); return false; }
+    if invalid {
+        if std::env::var("C16_DEBUG").is_ok() { eprintln!("REJECTED {:?}\n{src}", nitrogql_checker::check_type_system_document(&doc).iter().map(|e| format!("{:?}", e.message)).collect::<Vec<_>>()); }
+        out.bump(&format!("{stream}:schema-rejected-by-check")); return false;
+    }
     let mut stripped = cli_builtins::remove_builtins(&doc);
     if plugin {
         if let Some(next) = (ModelPlugin {}).transform_document_for_runtime_server(&stripped) { stripped = next; }
@@ -558,7 +561,7 @@ let calls = 0, last = null;
 globalThis.__T = (strs, ...subs) => { calls++; last = (subs.length === 0 && strs.length === 1 && strs[0] !== undefined) ? { v: strs[0] } : null; return last; };
 const out = srcs.map(src => {
   calls = 0; last = null;
-  try { const r = (0, eval)('__T' + src); return (calls === 1 && r !== null && r === last) ? r.v : null; } catch (e) { return null; }
+  try { const r = (0, eval)('__T' + src); if (!(calls === 1 && r !== null && r === last)) return null; return r.v.isWellFormed() ? r.v : false; } catch (e) { return null; }
 });
 fs.writeFileSync(process.argv[3], JSON.stringify(out));
 "#;
@@ -571,7 +574,9 @@ for (const f of files) { try { const m = await import(pathToFileURL(f).href); ou
 fs.writeFileSync(process.argv[3], JSON.stringify(out));
 "#;
 
-fn node_run(script: &str, input: &J, dir: &Path) -> Option<Vec<Option<String>>> {
+/// one entry per input: Some(Some(v)) a value, Some(None) no value (error / substitution), None = outside the model
+/// (a string with a lone surrogate, which a Rust string cannot hold)
+fn node_run(script: &str, input: &J, dir: &Path) -> Option<Vec<Option<Option<String>>>> {
     std::fs::create_dir_all(dir).ok()?;
     let sp = dir.join("script.mjs"); let ip = dir.join("in.json"); let op = dir.join("out.json");
     std::fs::write(&sp, script).ok()?;
@@ -580,8 +585,8 @@ fn node_run(script: &str, input: &J, dir: &Path) -> Option<Vec<Option<String>>> 
     let st = Command::new("node").arg(&sp).arg(&ip).arg(&op).output().ok()?;
     if !st.status.success() { return None; }
     let txt = std::fs::read_to_string(&op).ok()?;
-    // lone surrogates cannot occur: every input is a Rust string
-    serde_json::from_str::<Vec<Option<String>>>(&txt).ok()
+    let v: Vec<J> = serde_json::from_str(&txt).ok()?;
+    Some(v.into_iter().map(|x| match x { J::String(s) => Some(Some(s)), J::Null => Some(None), _ => None }).collect())
 }
 
 fn random_template(rng: &mut Rng) -> String {
@@ -621,6 +626,7 @@ fn cli_cases(out: &mut Out, rng: &mut Rng, cli: &Path, n: usize, work: &Path, us
     }
     let values: Option<Vec<Option<String>>> = if use_node {
         node_run(NODE_IMPORT, &json!(jobs.iter().map(|j| j.2.to_str().unwrap().to_string()).collect::<Vec<_>>()), &work.join("node"))
+            .map(|vs| vs.into_iter().map(|v| v.flatten()).collect())
     } else { None };
     let mut emitted = 0;
     for (k, (plugin, src, file)) in jobs.iter().enumerate() {
@@ -642,30 +648,24 @@ fn cli_cases(out: &mut Out, rng: &mut Rng, cli: &Path, n: usize, work: &Path, us
 fn server_source(rng: &mut Rng, plugin: bool, mode: Mode) -> String {
     let s = gen_schema(rng, &SchemaCfg { descriptions: false, custom_directives: true });
     let mut src = s.render();
-    // nitrogql_ts_type on scalars
+    // nitrogql_ts_type on scalars; @model(type: …) on object types, or @model on fields of objects without it
+    // (what the plugin's check accepts); in the adversarial stream also on interface / input fields (rejected by the checks)
     let mut o = String::new();
+    let mut kind = "";          // kind of the definition the current line belongs to
+    let mut obj_model = false;
     for line in src.lines() {
+        if !line.starts_with(' ') && !line.starts_with('}') { kind = line.split(' ').next().unwrap_or(""); obj_model = false; }
         if line.starts_with("scalar ") && rng.chance(2, 3) {
             o.push_str(&format!("{line} @nitrogql_ts_type(resolverInput: \"string\", resolverOutput: \"Date | string\", operationInput: \"string\", operationOutput: \"string\")\n"));
-        } else if plugin && line.starts_with("type ") && rng.chance(1, 3) {
-            o.push_str(&line.replacen(" {", if rng.chance(1, 2) { " @model {" } else { " @model(type: \"import('./m').M\") {" }, 1)); o.push('\n');
-        } else if plugin && line.starts_with("  ") && line.contains(": ") && !line.starts_with("  query") && !line.starts_with("  mutation") && !line.starts_with("  subscription") && rng.chance(1, 6) {
-            // object, interface and input fields alike (the latter two only in the adversarial stream: not valid / not stripped)
+        } else if plugin && line.starts_with("type ") && line.ends_with(" {") && rng.chance(1, 3) {
+            obj_model = true;
+            o.push_str(&line.replacen(" {", " @model(type: \"import('./m').M\") {", 1)); o.push('\n');
+        } else if plugin && line.starts_with("  ") && line.contains(": ") && !obj_model && rng.chance(1, 5)
+            && (kind == "type" || (mode == Mode::Adversarial && (kind == "interface" || kind == "input"))) {
             o.push_str(&format!("{line} @model\n"));
         } else { o.push_str(line); o.push('\n'); }
     }
     src = o;
-    if mode == Mode::Plain && plugin {
-        // keep @model where the plugin's runtime transform handles it: object types and their fields
-        let mut o = String::new();
-        let mut in_obj = false;
-        for line in src.lines() {
-            if line.starts_with("type ") { in_obj = true; } else if !line.starts_with("  ") && !line.starts_with('}') { in_obj = false; }
-            if !in_obj && line.ends_with(" @model") { o.push_str(line.trim_end_matches(" @model")); } else { o.push_str(line); }
-            o.push('\n');
-        }
-        src = o;
-    }
     // descriptions and an extension, so that merging and description printing are exercised
     let mut syn = Syn { rng, mode, top: true };
     let _ = syn.top;
@@ -805,6 +805,7 @@ fn main() {
             Some(vals) if vals.len() == srcs.len() => {
                 let mut n_some = 0;
                 for (src, v) in srcs.iter().zip(vals.iter()) {
+                    let Some(v) = v else { continue };   // lone surrogate: outside the model
                     if v.is_some() { n_some += 1; }
                     out.distinct.insert(format!("tpl|{src}"));
                     out.cases.push(format!("CTemplate {} {}", coq_text(src), coq_opt(v, |x| coq_text(x))), json!({"kind":"template","source":src,"node_value":v}));
@@ -823,6 +824,15 @@ fn main() {
         }
     }
 
+    // spread the (large) document cases evenly over the shards
+    {
+        let n = out.cases.len();
+        let shards = (n + out.cases.shard_size - 1) / out.cases.shard_size.max(1);
+        let mut order: Vec<usize> = vec![];
+        for k in 0..shards.max(1) { let mut i = k; while i < n { order.push(i); i += shards.max(1); } }
+        out.cases.terms = order.iter().map(|i| out.cases.terms[*i].clone()).collect();
+        out.cases.descr = order.iter().map(|i| out.cases.descr[*i].clone()).collect();
+    }
     out.cases.write(&args.out);
     let n = out.cases.len();
     let samples: Vec<_> = [3usize, n / 3, n / 2, (2 * n) / 3].iter().map(|i| {
